@@ -142,3 +142,22 @@ Theorem C09_mark_all_persisted_refuted :
     [0; 0; 3; 4; 1; 1; 5; 3; 4; 5; 2; 2; 2]) = true.
 Proof. exact SchemaFlushProofs.mark_all_persisted_refuted. Qed.
 Print Assumptions C09_mark_all_persisted_refuted.
+
+(* ---- field ids of one metric (one byte; index/metric_schema_store.go genFieldID): for every history of field creations,
+   every configured limit, two field names of a metric never share an id, and a given id is never changed by a later
+   operation ---- *)
+From LinDBV.C09 Require Fields.
+Theorem C09_field_ids_injective : forall limit ops n1 n2 i,
+  let l := Fields.frun limit true ops in
+  Fields.fid l n1 = Some i -> Fields.fid l n2 = Some i -> n1 = n2.
+Proof. exact Fields.field_ids_injective. Qed.
+Print Assumptions C09_field_ids_injective.
+Theorem C09_field_ids_stable : forall limit hc l o nm i,
+  Fields.fid l nm = Some i -> Fields.fid (fst (Fields.fstep limit hc l o)) nm = Some i.
+Proof. exact Fields.field_ids_stable. Qed.
+Print Assumptions C09_field_ids_stable.
+(* refuted when the configured limit (default 256) replaces the built-in cap of 255 fields *)
+Theorem C09_limit_instead_of_cap_refuted :
+  let l := Fields.frun 256 false (Fields.gens 257) in Fields.fid l 0 = Some 0 /\ Fields.fid l 256 = Some 0.
+Proof. exact Fields.limit_instead_of_cap_refuted. Qed.
+Print Assumptions C09_limit_instead_of_cap_refuted.
